@@ -72,6 +72,13 @@ func genConv(t *rapid.T, id identity, maxReqs int, allowTransfer bool, label str
 			}
 		}
 		c.Reqs = append(c.Reqs, toJSON(r, note))
+		if !r.Transfer && rapid.IntRange(0, 7).Draw(t, label+"_resend") == 0 {
+			// the terminal sends the same frame again (same serial, byte-identical: a retransmission). Each copy is a
+			// handled message of its own: its own reply, its own callbacks
+			for k, n := 0, rapid.IntRange(1, 2).Draw(t, label+"_resend_n"); k < n; k++ {
+				c.Reqs = append(c.Reqs, toJSON(r, note))
+			}
+		}
 	}
 	burstTail := rapid.IntRange(0, 4).Draw(t, label+"_burst_tail") == 0
 	if burstTail {
@@ -118,6 +125,10 @@ func genIdentity(t *rapid.T, i int, label string) identity {
 		digits = fmt.Sprintf("%d", 7+i) // short number: many leading zeros
 	case 1:
 		digits = fmt.Sprintf("99999999%04d", 9990+i)
+	case 2:
+		if i == 0 {
+			digits = "0" // the all-zero phone number (one terminal per server: it is a key like any other)
+		}
 	}
 	return identity{Digits: digits, V2019: v}
 }
@@ -220,7 +231,7 @@ func judgeConversation(name string, c convTerminal, h History, firstPlatformSeri
 		r   reqJSON
 		idx int
 	}
-	mixed := false
+	mixed, resent := false, false
 	var want []exp
 	for i, r := range c.Reqs {
 		if r.Kind == "reply" {
@@ -289,11 +300,15 @@ func judgeConversation(name string, c convTerminal, h History, firstPlatformSeri
 				reads = append(reads, e)
 			}
 		}
-		if len(reads) != 1 {
-			return nil, fmt.Errorf("%s: request %#04x (serials %v) was reported to the read callback %d times, want exactly once", name, w.r.MsgID, w.r.Serials, len(reads))
+		mult, nth := sameFrames(c, w.r, w.idx)
+		if len(reads) != mult {
+			return nil, fmt.Errorf("%s: request %#04x (serials %v), sent %d time(s), was reported to the read callback %d times, want exactly once per copy", name, w.r.MsgID, w.r.Serials, mult, len(reads))
 		}
-		if reads[0].Seq > recv[k].Seq {
-			return nil, fmt.Errorf("%s: the reply to request %#04x (serial %v) reached the terminal (seq %d) before the read callback finished (seq %d)", name, w.r.MsgID, w.r.Serials, recv[k].Seq, reads[0].Seq)
+		if mult > 1 {
+			resent = true
+		}
+		if reads[nth].Seq > recv[k].Seq {
+			return nil, fmt.Errorf("%s: the reply to request %#04x (serial %v) reached the terminal (seq %d) before the read callback finished (seq %d)", name, w.r.MsgID, w.r.Serials, recv[k].Seq, reads[nth].Seq)
 		}
 		if w.r.Transfer != reads[0].Flag {
 			return nil, fmt.Errorf("%s: read callback for %#04x has SubcontractComplete=%v", name, w.r.MsgID, reads[0].Flag)
@@ -315,16 +330,31 @@ func judgeConversation(name string, c convTerminal, h History, firstPlatformSeri
 				}
 			}
 		}
-		if r.Kind == "unsupported" && (nr != 0 || nu != 1) {
-			return nil, fmt.Errorf("%s: unsupported %#04x: read callbacks %d, not-supported callbacks %d (want 0 and 1)", name, r.MsgID, nr, nu)
+		mult := 0
+		for _, o := range c.Reqs {
+			if !o.Transfer && bytes.Equal(o.Frames[0], r.Frames[0]) {
+				mult++
+			}
 		}
-		if r.Kind == "noreply" && nr != 1 {
-			return nil, fmt.Errorf("%s: %#04x (no reply expected): read callbacks %d, want 1", name, r.MsgID, nr)
+		if mult > 1 {
+			resent = true
+		}
+		if r.Kind == "unsupported" && (nr != 0 || nu != mult) {
+			return nil, fmt.Errorf("%s: unsupported %#04x sent %d time(s): read callbacks %d, not-supported callbacks %d (want 0 and one per copy)", name, r.MsgID, mult, nr, nu)
+		}
+		if r.Kind == "noreply" && nr != mult {
+			return nil, fmt.Errorf("%s: %#04x (no reply expected) sent %d time(s): read callbacks %d, want one per copy", name, r.MsgID, mult, nr)
 		}
 	}
 	seen := map[string]bool{}
 	if mixed {
 		seen["mixed_layouts_on_one_connection"] = true
+	}
+	if resent {
+		seen["identical_frame_sent_again"] = true
+	}
+	if ref.StripZeros(c.ID.Digits) == "" {
+		seen["all_zero_phone"] = true
 	}
 	for _, r := range c.Reqs {
 		seen[fmt.Sprintf("msg_%04x", r.MsgID)] = true
@@ -347,6 +377,23 @@ func judgeConversation(name string, c convTerminal, h History, firstPlatformSeri
 		labels = append(labels, "hdr2013")
 	}
 	return labels, nil
+}
+
+// sameFrames: how many requests of the conversation consist of exactly the frame of r (retransmissions), and which of them
+// (0-based, in sending order) the request at index idx is. The closing heartbeat (idx -1) is unique.
+func sameFrames(c convTerminal, r reqJSON, idx int) (mult, nth int) {
+	if r.Transfer || idx < 0 {
+		return 1, 0
+	}
+	for i, o := range c.Reqs {
+		if !o.Transfer && bytes.Equal(o.Frames[0], r.Frames[0]) {
+			if i < idx {
+				nth++
+			}
+			mult++
+		}
+	}
+	return mult, nth
 }
 
 // verdict maps child exit states to results shared by all socket-level properties.
